@@ -236,6 +236,8 @@ const SPECIAL_CHARS: &[&[u8]] = &[
     b"\t", b"\0", b"\xff", b"\x80", b"%", b"%zz", b"%0", b";", b"=", b",", b":", b"\"", b"\\", b"\r", b"\n", b" ", b"#", b"@", b"*", b"|", b"/", b".", b"<", b">", b"[", b"]", b"+", b"-", b"\xc3", b"\xe2\x82",
     // valid multi-byte UTF-8 (byte offset != character count): U+00DF, U+00E9, U+20AC, U+1F600
     b"\xc3\x9f", b"\xc3\xa9", b"\xe2\x82\xac", b"\xf0\x9f\x98\x80", b"\xc3\x9f", b"\xc3\x9f\xc3\x9f",
+    // a carriage return that is NOT part of the line terminator, followed by an empty field
+    b"\r\t", b"\r\t", b"\t\r",
 ];
 
 /// Token boundaries of a line: split at TAB, and below that at `;:,=| ` (sub-tokens).
